@@ -118,7 +118,8 @@ func checkC10(c *Ctx) {
 	checkDocLifecycle(c, gen)
 
 	// ---- R5 loads.Embedded order
-	checkEmbeddedOrder(c, ev, gen)
+	checkEmbeddedOrder(c, "C10.R5.embedded-order", ev, gen)
+	checkWriteUnconditional(c, "C10.R4.document", gen)
 
 	// ---- R6 in-place compaction
 	checkInPlaceCompaction(c, "C10.R6.no-inplace-filter", gen)
@@ -287,8 +288,7 @@ func checkDocLifecycle(c *Ctx, gen *packages.Package) {
 
 // checkEmbeddedOrder: every loads.Embedded(a, b) in server/main passes SwaggerJSON first and
 // FlatSwaggerJSON second, matching the dependency's parameter order (orig, flat).
-func checkEmbeddedOrder(c *Ctx, ev *tmpl.Evaluator, gen *packages.Package) {
-	rule := "C10.R5.embedded-order"
+func checkEmbeddedOrder(c *Ctx, rule string, ev *tmpl.Evaluator, gen *packages.Package) {
 	c.Rule(rule, "server/main.gotmpl: loads.Embedded(<pkg>.SwaggerJSON, <pkg>.FlatSwaggerJSON) — original first, flattened second — at every load site", 3)
 	// dependency: parameter names of loads.Embedded
 	prog := c.ProgDeps("./generator", "github.com/go-openapi/runtime/yamlpc")
